@@ -46,6 +46,9 @@ def check_acc(ctx, S, R="C02-ACC"):
         okL = isinstance(core, ast.Call) and (A.call_name(core) or "").split(".")[-1] == "concatenate" and "@loop" in A.unparse(core)
         ctx.check(R, st, "%s: acceptance over all samples evaluated so far" % q, okL,
                   "likelihood array `%s` is not the accumulated array (only the latest batch is tested, earlier acceptances are never re-tested against the new maximum)" % A.unparse(core)[:70], key=q + ":accum")
+        if okL:
+            oku, whyu = _rej.accum_unfiltered(core)
+            ctx.check(R, st, "%s: every evaluated sample enters the accumulated array, in evaluation order" % q, oku, whyu, key=q + ":accum-whole")
     else:
         okL = isinstance(core, ast.Call) and (A.call_name(core) or "").split(".")[-1].startswith("marginal_ln_likelihood")
         ctx.check(R, st, "%s: acceptance over every evaluated sample" % q, okL,
@@ -249,6 +252,29 @@ def check_nprior(ctx):
     ctx.check(R, H, "likelihoods concatenated in task order", okc, "marginal_ln_likelihood_helper does not return np.concatenate(results)", key="concat")
 
 
+def check_cache(ctx, R="C02-CACHE"):
+    ctx.rule(R, "tempfile_decorator writes the library object it was given - whole and unmodified - to the cache file (`prior_samples.write(f.name, ...)` on the object taken from "
+                "the arguments): n_prior_samples / randomize_prior_order are interpreted against the full library by the wrapped function, so a pre-cut or re-ordered cache "
+                "changes which rows can be drawn.")
+    ut = ctx.prog.func("thejoker.utils", "tempfile_decorator.wrapper", R)
+    fl = A.Flow(ut)
+    ws = [c for c in A.calls_in(ut) if A.last_attr(c) == "write" and c.args and "name" in A.unparse(c.args[0])]
+    if len(ws) != 1:
+        ctx.undecided(R, ut, "cache write", "expected one `<library>.write(<temp file name>, ...)`, found %d" % len(ws))
+        return
+    w = ws[0]
+    recv = fl.resolve(w.func.value, at=A.enclosing_stmt(w))
+    ok = True
+    why = ""
+    for terms, leaf in A.ifexp_terms(recv):
+        taken = (isinstance(leaf, ast.Subscript) and canon(leaf.value) == "kwargs" and A.str_const(leaf.slice) == "prior_samples_file") or \
+            (isinstance(leaf, ast.Call) and A.last_attr(leaf) == "pop" and "args" in canon(leaf.func.value))
+        if not taken:
+            ok = False
+            why = "the object written to the cache is `%s`, not the library taken from the arguments" % A.unparse(leaf)[:90]
+    ctx.check(R, w, "the cache file holds the whole library as given", ok, why, key="whole")
+
+
 def check_api(ctx):
     R = "C02-API"
     ctx.rule(R, "the public method forwards every option it accepts to the helper that implements it, under the same name (max_posterior_samples, n_prior_samples, "
@@ -306,6 +332,7 @@ def run(ctx):
                       "acceptance form %s differs from the siblings' %s" % (s, common), key=name)
     check_copy(ctx, sites)
     check_nprior(ctx)
+    check_cache(ctx)
     check_api(ctx)
     ctx.rule("C02-PART", "file paths: batches partition the evaluated rows exactly once and in order (shared implementation with C16), so rows come back in evaluation order.")
     from .C16 import check_batch_tasks, check_run_worker
